@@ -547,7 +547,7 @@ def gen_filter_case(rng, i):
         secrets.append(dict(pw=u['pw'], how='source', idx=0, uri=u['text'], user=u['user'], form='str'))
         items += [['sources', u['text']], ['outputs', 'tcp://*:5550']]
     opt_secret(items)
-    return dict(cls=cls, config={'__k': top_kind, 'items': items}, secrets=secrets, note=cls)
+    return dict(cls=cls, config={'__k': top_kind, 'items': items}, secrets=secrets, note=cls, debug=rng.random() < 0.3)
 
 def longrun_family(run, rng, n):
     """a VideoOut that has been running for a while: credentialed rtsp / file outputs, fixed and adaptive fps, frames arriving
@@ -638,6 +638,23 @@ def drive(case):
     Filter.emitter = Emitter()
     obs = dict(ctor_exc=None, run_exc=None, stage='run')
     out, err = io.StringIO(), io.StringIO()
+    # LOG_LEVEL=DEBUG for some runs: what is logged then (more records, tracebacks attached to error records) is a log line too
+    saved_levels = []
+    if case.get('debug'):
+        for lname, lg in list(logging.root.manager.loggerDict.items()):
+            if isinstance(lg, logging.Logger) and (lname.startswith('openfilter') or lname == F.__name__):
+                saved_levels.append((lg, lg.level))
+                lg.setLevel(logging.DEBUG)
+        saved_levels.append((ROOT, ROOT.level))
+        ROOT.setLevel(logging.DEBUG)
+    try:
+        obs = _drive_inner(case, cls, config, obs, out, err)
+    finally:
+        for lg, lv in saved_levels:
+            lg.setLevel(lv)
+    return obs
+
+def _drive_inner(case, cls, config, obs, out, err):
     with contextlib.redirect_stdout(out), contextlib.redirect_stderr(err):
         if case['cls'] in FULL_RUN:
             try:
@@ -712,7 +729,7 @@ def filter_oracle(run, case, obs):
     frame meta"""
     cname = case['cls']
     err_path = obs['ctor_exc'] is not None
-    rcase = dict(family='filter', cls=cname, config=case['config'], secrets=case['secrets'], note=case['note'])
+    rcase = dict(family='filter', cls=cname, config=case['config'], secrets=case['secrets'], note=case['note'], debug=bool(case.get('debug')))
     for sec in case['secrets']:
         pw = sec['pw']
         if not pw:
@@ -932,7 +949,8 @@ def main():
         lap('wordchar')
         scanner_family(run, scanner_cases(run, rng, run.n(2400, 40000)))
         lap('scanner')
-        cases = fixed_filter_cases() + [gen_filter_case(rng, i) for i in range(run.n(400, 4000))]
+        fixed = fixed_filter_cases()
+        cases = fixed + [dict(c, debug=True) for c in fixed] + [gen_filter_case(rng, i) for i in range(run.n(400, 4000))]
         filter_family(run, cases)
         lap('filters')
         longrun_family(run, rng, run.n(12, 150))
@@ -954,7 +972,7 @@ def main():
         "an empty user (scheme://:password@host) and a scheme glued to a preceding word character are outside cred_ok / pre_ok: "
         "the model shows they are not masked (mask:empty-user; glued schemes are counted, not reported)",
         'dict keys that are not str, float values and non-JSON objects in configurations are outside the model (oracle only)',
-        'log records at DEBUG level are not produced (LOG_LEVEL default INFO); exception messages that are raised out of '
+        '30% of the filter runs are made at LOG_LEVEL=DEBUG (all openfilter loggers); exception messages that are raised out of '
         'the constructor and never logged (they reach stderr as a traceback) are not counted as log lines',
         'setup() of ImageIn/ImageOut/Recorder/MQTTOut/Webvis/REST is not driven (servers, files, brokers): their '
         'construction and init (log line, START facets) are',
